@@ -257,9 +257,17 @@ func natOf(e sx.Sexp) int {
 	return int(n)
 }
 
+// nameOf: a member name (`\A[a-z_]\w*\z`); anything else is outside the universe (the schema rejects it)
 func nameOf(e sx.Sexp) string {
-	if e.IsList || e.Atom == "" {
+	if e.IsList || !memberName(e.Atom) {
 		panic(fmt.Errorf("bad name %s", e))
+	}
+	return e.Atom
+}
+
+func atomOf(e sx.Sexp) string {
+	if e.IsList || e.Atom == "" {
+		panic(fmt.Errorf("bad atom %s", e))
 	}
 	return e.Atom
 }
@@ -287,7 +295,7 @@ func defOf(e sx.Sexp) def {
 		if !a.IsList || len(a.List) != 4 {
 			panic(fmt.Errorf("bad attribute %s", a))
 		}
-		at := attr{name: nameOf(a.List[0]), ty: tyOf(a.List[1]), kind: nameOf(a.List[2])}
+		at := attr{name: nameOf(a.List[0]), ty: tyOf(a.List[1]), kind: atomOf(a.List[2])}
 		if strings.Index("ncdgr", at.kind) < 0 || len(at.kind) != 1 {
 			panic(fmt.Errorf("bad kind %s", at.kind))
 		}
@@ -314,7 +322,7 @@ func defOf(e sx.Sexp) def {
 	} else if q.Atom != "-" {
 		panic(fmt.Errorf("bad equality %s", q))
 	}
-	d.eit = nameOf(e.List[3])
+	d.eit = atomOf(e.List[3])
 	if d.eit != "-" && d.eit != "t" && d.eit != "f" {
 		panic(fmt.Errorf("bad equality_include_type %s", d.eit))
 	}
@@ -456,7 +464,7 @@ func mkSpec(defs []def) *spec {
 		}
 		for _, a := range d.attrs {
 			sa := sattr{attr: a, owner: i}
-			if !memberName(a.name) || seen[a.name] {
+			if seen[a.name] {
 				wf = false // overriding is outside the generated universe: a repeated name is simply malformed
 			}
 			seen[a.name] = true
